@@ -108,7 +108,7 @@ pub struct C11Case {
 
 pub fn c11_strategy(_ctx: &Ctx) -> BoxedStrategy<C11Case> {
   let shape = prop::sample::select(vec!["merge", "zip", "amb", "concat", "flat_map", "merge_cold", "zip_cold"]);
-  let agg = prop::option::weighted(0.35, prop::sample::select(vec!["count", "sum", "reduce", "max"]));
+  let agg = prop::option::weighted(0.4, prop::sample::select(vec!["count", "sum", "reduce", "max", "group_by"]));
   (shape, 2usize..=3, prop::collection::vec(1usize..=4, 3), prop::option::weighted(0.4, 1usize..=4), sched_strategy(), agg)
     .prop_map(|(shape, k, lens, take, sched, agg)| {
       let scripts: Vec<Vec<Ev>> = (0..k).map(|i| unique_script(i, lens[i], Some(Ev::C))).collect();
@@ -160,6 +160,8 @@ pub fn c11_strategy(_ctx: &Ctx) -> BoxedStrategy<C11Case> {
           "count" => Op::Count,
           "sum" => Op::Sum,
           "reduce" => Op::Reduce(Fold::Add),
+          // group_by(x mod 2), the groups flattened again: nothing lost, one group per key
+          "group_by" => Op::GroupBy(2),
           _ => Op::Max,
         };
         root = Node::Un(op, Box::new(root));
@@ -235,6 +237,31 @@ fn c11_check(_ctx: &Ctx, c: &C11Case) -> Report {
   }
   if evs.last().map(|e| e.k.clone()) != Some(Rk::C) {
     rep.fail = fail("complete is not the last notification".into());
+    return rep;
+  }
+  if c.agg.as_deref() == Some("group_by") {
+    rep.classes.push("aggregate:group_by".into());
+    let all: Vec<i64> = c.scripts.iter().flatten().copied().collect();
+    let pairs: Vec<(i64, i64)> = got
+      .iter()
+      .map(|p| match p {
+        P::L(v) if v.len() == 2 => (v[0].as_i64(), v[1].as_i64()),
+        other => (-1, other.as_i64()),
+      })
+      .collect();
+    let flat: Vec<i64> = pairs.iter().map(|x| x.1).collect();
+    if multiset(&flat) != multiset(&all) {
+      rep.fail = fail(format!("group_by over all inputs' items {:?} delivered {:?}", all, flat));
+      return rep;
+    }
+    let mut group_of_key: HashMap<i64, i64> = HashMap::new();
+    for (g, x) in &pairs {
+      let key = x.rem_euclid(2);
+      if *group_of_key.entry(key).or_insert(*g) != *g {
+        rep.fail = fail(format!("items of key {} arrived through two different groups: {:?}", key, pairs));
+        return rep;
+      }
+    }
     return rep;
   }
   if let Some(a) = &c.agg {
